@@ -1285,8 +1285,11 @@ func mergeChunks(chunks []*MessageChunk) ([]byte, error) {
 
 	var b []byte
 	var seqnr uint32
-	for _, c := range chunks {
-		if c.SequenceHeader.SequenceNumber == seqnr {
+	for i, c := range chunks {
+		// skip a chunk that repeats the sequence number of the previous one.
+		// The first chunk has no predecessor: sequence number 0 is valid
+		// after the sequence number has wrapped.
+		if i > 0 && c.SequenceHeader.SequenceNumber == seqnr {
 			continue // duplicate chunk
 		}
 		seqnr = c.SequenceHeader.SequenceNumber
